@@ -171,7 +171,9 @@ def r16_4(ctx: Ctx) -> RuleResult:
                 for e in elts:
                     if isinstance(e, ast.Attribute) and path_of(e.value) == "self":
                         fields.append(e.attr)
-    read = {a.attr for a in ast.walk(s.node) if isinstance(a, ast.Attribute) and path_of(a.value) == "self"}
+    from .c10 import printed_fields
+
+    read = printed_fields(ctx, cls, s)
     for f in fields:
         if f in read:
             rr.ok(s.loc(), f"__str__ reads self.{f}")
